@@ -1,12 +1,16 @@
 import json
 NAME = 'K-index'
-PROPERTIES = ['C10', 'C09']
+PROPERTIES = ['C10', 'C09', 'C15']
 ENGINE = 'verus'
 CLASS = 'U'
 DOC = ('IndexManager (storage/table/indexes.rs), the hash indexes behind PRIMARY KEY / UNIQUE enforcement and the UPDATE / DELETE primary-key fast path, on the REAL code '
        '(this Verus accepts `if let Some(ref mut ..)`, Vec::get_mut and `&mut v[i]`): update_for_insert / update_for_update / update_for_delete / update_selective have their EXACT '
        'effect on every map (key bound / unbound, NULL-holding UNIQUE keys never stored, selective update touches exactly the listed indexes), clear empties them, and after '
-       'rebuild every map is exactly "key -> position of the last row with that key" (THE MIRROR; loop invariant + induction lemma).')
+       'rebuild every map is exactly "key -> position of the last row with that key" (THE MIRROR; loop invariant + induction lemma). C15: IndexManager::new makes one '
+       'empty map per constraint; update_for_insert KEEPS THE MIRROR when the row goes to position rows.len(); update_for_update and update_selective keep it when the '
+       'table is duplicate-free, old_row is the row at that position and the new keys are held by no other row (update_selective: and every index it is not told to '
+       'update has an unchanged key - get_affected_indexes names exactly the indexes with a changed column); stated as postconditions of the real functions, '
+       'quantified over every row vector the maps mirror.')
 
 TEMPLATE = r'''
 use vstd::prelude::*;
@@ -28,6 +32,13 @@ fn project(vals: &Vec<SqlValue>, idx: &[usize]) -> (r: Vec<SqlValue>)
 #[verifier::external_body] fn has_null(k: &Vec<SqlValue>) -> (r: bool) ensures r == key_has_null(k@) { unimplemented!() }
 #[verifier::external_body] fn key_ne(a: &Vec<SqlValue>, b: &Vec<SqlValue>) -> (r: bool) ensures r == (a@ != b@) { unimplemented!() }
 #[verifier::external_body] fn key_eq(a: &Vec<SqlValue>, b: &Vec<SqlValue>) -> (r: bool) ensures r == (a@ == b@) { unimplemented!() }
+// std::collections::HashSet<usize> (the changed columns of an UPDATE): an abstract set
+#[verifier::external_body] pub struct ColSet { c: u8 }
+impl ColSet { pub uninterp spec fn view(&self) -> Set<usize>; }
+/// some column of the key is in the set
+pub open spec fn touches(idx: Seq<usize>, ch: Set<usize>) -> bool { exists|j: int| 0 <= j < idx.len() && ch.contains(#[trigger] idx[j]) }
+// cols.iter().any(|idx| changed_columns.contains(idx))
+#[verifier::external_body] fn any_in(idx: &[usize], ch: &ColSet) -> (r: bool) ensures r == touches(idx@, ch.view()) { unimplemented!() }
 
 pub struct TableSchema { pub o: u8 }
 impl TableSchema {
@@ -38,6 +49,9 @@ impl TableSchema {
         (self.pk() matches Some(p) ==> forall|j: int| 0 <= j < p.len() ==> (#[trigger] p[j]) < self.ncols())
         && forall|c: int, j: int| 0 <= c < self.uniques().len() && 0 <= j < self.uniques()[c].len() ==> (#[trigger] self.uniques()[c][j]) < self.ncols()
     }
+    // schema.primary_key.is_some()  /  schema.unique_constraints.len()   (get_primary_key_indices is `primary_key.as_ref().map(..)`, get_unique_constraint_indices maps unique_constraints one to one)
+    #[verifier::external_body] pub fn has_primary_key(&self) -> (r: bool) ensures r == (self.pk() is Some) { unimplemented!() }
+    #[verifier::external_body] pub fn unique_constraint_count(&self) -> (r: usize) ensures r == self.uniques().len() { unimplemented!() }
     #[verifier::external_body]
     pub fn get_primary_key_indices(&self) -> (r: Option<Vec<usize>>) ensures (r is Some) == (self.pk() is Some), r is Some ==> r.unwrap()@ == self.pk().unwrap() { unimplemented!() }
     #[verifier::external_body]
@@ -51,7 +65,11 @@ impl KeyPosMap {
     #[verifier::external_body] pub fn insert(&mut self, k: Vec<SqlValue>, v: usize) -> (r: Option<usize>) ensures final(self).view() == old(self).view().insert(k@, v) { unimplemented!() }
     #[verifier::external_body] pub fn remove(&mut self, k: &Vec<SqlValue>) -> (r: Option<usize>) ensures final(self).view() == old(self).view().remove(k@) { unimplemented!() }
     #[verifier::external_body] pub fn clear(&mut self) ensures final(self).view() == Map::<Key, usize>::empty() { unimplemented!() }
+    #[verifier::external_body] pub fn new() -> (r: KeyPosMap) ensures r.view() == Map::<Key, usize>::empty() { unimplemented!() }
 }
+// (0..n).map(|_| HashMap::new()).collect()
+#[verifier::external_body] fn empty_maps(n: usize) -> (r: Vec<KeyPosMap>)
+    ensures r@.len() == n, forall|c: int| 0 <= c < n ==> (#[trigger] r@[c]).view() == Map::<Key, usize>::empty() { unimplemented!() }
 
 
 pub open spec fn uq_del(m: Map<Key, usize>, k: Key) -> Map<Key, usize> { if key_has_null(k) { m } else { m.remove(k) } }
@@ -96,6 +114,8 @@ impl IndexManager {
         (self.primary_key_index matches Some(pk) ==> s.pk() is Some && mirrors(pk.view(), rows, s.pk().unwrap(), false, n))
         && forall|c: int| 0 <= c < self.unique_indexes@.len() && c < s.uniques().len() ==> mirrors((#[trigger] self.unique_indexes@[c]).view(), rows, s.uniques()[c], true, n)
     }
+    /// one map per constraint: a primary-key map iff the schema has a primary key, as many unique maps as unique constraints (IndexManager::new; kept by every operation)
+    pub open spec fn complete(&self, s: &TableSchema) -> bool { (self.primary_key_index is Some) == (s.pk() is Some) && self.unique_indexes@.len() == s.uniques().len() }
     pub open spec fn rows_ok(s: &TableSchema, rows: Seq<Row>) -> bool { forall|i: int| 0 <= i < rows.len() ==> (#[trigger] rows[i]).values@.len() == s.ncols() }
 
 }
@@ -115,13 +135,268 @@ proof fn lemma_insert_step(m: Map<Key, usize>, rows: Seq<Row>, idx: Seq<usize>, 
 proof fn lemma_empty_mirrors(rows: Seq<Row>, idx: Seq<usize>, skip_null: bool)
     ensures mirrors(Map::<Key, usize>::empty(), rows, idx, skip_null, 0)
 {}
+/// a key that the index stores (unique-constraint maps skip keys holding a NULL)
+pub open spec fn counted(k: Key, skip_null: bool) -> bool { !(skip_null && key_has_null(k)) }
+pub open spec fn keyof(rows: Seq<Row>, idx: Seq<usize>, j: int) -> Key { proj(rows[j].values@, idx) }
+/// no two rows hold the same stored key (what PRIMARY KEY / UNIQUE enforcement maintains: C10)
+pub open spec fn dupfree(rows: Seq<Row>, idx: Seq<usize>, skip_null: bool) -> bool {
+    forall|i: int, j: int| 0 <= i < j < rows.len() && counted(keyof(rows, idx, i), skip_null) ==> keyof(rows, idx, i) != keyof(rows, idx, j)
+}
+/// the key `kn` about to be written at position i is held by no OTHER row (what the uniqueness check before the write establishes)
+pub open spec fn fresh(rows: Seq<Row>, idx: Seq<usize>, skip_null: bool, i: int, kn: Key) -> bool {
+    counted(kn, skip_null) ==> forall|j: int| 0 <= j < rows.len() && j != i ==> keyof(rows, idx, j) != kn
+}
+/// the list names the primary-key index / unique index c among its first n entries
+pub open spec fn lists_pk(aff: Seq<IndexType>, n: int) -> bool { exists|j: int| 0 <= j < n && (#[trigger] aff[j]) is PrimaryKey }
+pub open spec fn lists_uq(aff: Seq<IndexType>, c: int, n: int) -> bool { exists|j: int| 0 <= j < n && (#[trigger] aff[j]) == IndexType::UniqueConstraint(c as usize) }
+/// a listed index receives the update effect exactly once however often it is listed; an unlisted one none
+proof fn lemma_sel_pk(m: Map<Key, usize>, aff: Seq<IndexType>, n: int, ko: Key, kn: Key, pos: usize)
+    requires 0 <= n <= aff.len(),
+    ensures sel_pk(m, aff, n, ko, kn, pos) == (if lists_pk(aff, n) { pk_upd(m, ko, kn, pos) } else { m }),
+    decreases n,
+{
+    if n > 0 {
+        lemma_sel_pk(m, aff, n - 1, ko, kn, pos);
+        let u = pk_upd(m, ko, kn, pos);
+        assert(pk_upd(u, ko, kn, pos) =~= u);
+        if aff[n - 1] is PrimaryKey { assert(lists_pk(aff, n)); }
+        else if lists_pk(aff, n) { let j = choose|j: int| 0 <= j < n && (#[trigger] aff[j]) is PrimaryKey; assert(j < n - 1); assert(lists_pk(aff, n - 1)); }
+        if lists_pk(aff, n - 1) { let j = choose|j: int| 0 <= j < n - 1 && (#[trigger] aff[j]) is PrimaryKey; assert(lists_pk(aff, n)); }
+    }
+}
+proof fn lemma_sel_uq(m: Map<Key, usize>, c: int, aff: Seq<IndexType>, n: int, ko: Key, kn: Key, pos: usize)
+    requires 0 <= n <= aff.len(),
+    ensures sel_uq(m, c, aff, n, ko, kn, pos) == (if lists_uq(aff, c, n) { uq_upd(m, ko, kn, pos) } else { m }),
+    decreases n,
+{
+    if n > 0 {
+        lemma_sel_uq(m, c, aff, n - 1, ko, kn, pos);
+        let u = uq_upd(m, ko, kn, pos);
+        assert(uq_upd(u, ko, kn, pos) =~= u);
+        let t = IndexType::UniqueConstraint(c as usize);
+        if aff[n - 1] == t { assert(lists_uq(aff, c, n)); }
+        else if lists_uq(aff, c, n) { let j = choose|j: int| 0 <= j < n && (#[trigger] aff[j]) == t; assert(j < n - 1); assert(lists_uq(aff, c, n - 1)); }
+        if lists_uq(aff, c, n - 1) { let j = choose|j: int| 0 <= j < n - 1 && (#[trigger] aff[j]) == t; assert(lists_uq(aff, c, n)); }
+    }
+}
+
 impl IndexManager {
+    /// no two rows share a stored key of ANY constraint (what PRIMARY KEY / UNIQUE enforcement maintains: C10)
+    pub open spec fn all_dupfree(s: &TableSchema, rows: Seq<Row>) -> bool {
+        (s.pk() matches Some(p) ==> dupfree(rows, p, false))
+        && forall|c: int| 0 <= c < s.uniques().len() ==> dupfree(rows, #[trigger] s.uniques()[c], true)
+    }
+    /// the keys of the values about to be written at position i are held by no other row (what the uniqueness check before the write establishes)
+    pub open spec fn all_fresh(s: &TableSchema, rows: Seq<Row>, i: int, vals: Seq<SqlValue>) -> bool {
+        (s.pk() matches Some(p) ==> fresh(rows, p, false, i, proj(vals, p)))
+        && forall|c: int| 0 <= c < s.uniques().len() ==> fresh(rows, #[trigger] s.uniques()[c], true, i, proj(vals, s.uniques()[c]))
+    }
+    /// every constraint index the list does NOT name has the same key in the old and the new values
+    pub open spec fn unlisted_same(s: &TableSchema, aff: Seq<IndexType>, ov: Seq<SqlValue>, nv: Seq<SqlValue>) -> bool {
+        (s.pk() matches Some(p) ==> lists_pk(aff, aff.len() as int) || proj(ov, p) == proj(nv, p))
+        && forall|c: int| 0 <= c < s.uniques().len() ==> lists_uq(aff, c, aff.len() as int) || proj(ov, #[trigger] s.uniques()[c]) == proj(nv, s.uniques()[c])
+    }
+    /// the list names exactly the constraint indexes with a column in `ch`
+    pub open spec fn covers(s: &TableSchema, ch: Set<usize>, aff: Seq<IndexType>) -> bool {
+        (s.pk() matches Some(p) ==> (lists_pk(aff, aff.len() as int) <==> touches(p, ch)))
+        && (s.pk() is None ==> !lists_pk(aff, aff.len() as int))
+        && forall|c: int| 0 <= c < s.uniques().len() ==> (lists_uq(aff, c, aff.len() as int) <==> touches(#[trigger] s.uniques()[c], ch))
+    }
+}
+proof fn lemma_remove_dupfree(rows: Seq<Row>, idx: Seq<usize>, skip_null: bool, p: int)
+    requires 0 <= p < rows.len(), dupfree(rows, idx, skip_null),
+    ensures dupfree(rows.remove(p), idx, skip_null),
+{
+    let r2 = rows.remove(p);
+    assert forall|a: int, b: int| 0 <= a < b < r2.len() && counted(keyof(r2, idx, a), skip_null) implies keyof(r2, idx, a) != keyof(r2, idx, b) by {
+        let a0 = if a < p { a } else { a + 1 }; let b0 = if b < p { b } else { b + 1 };
+        assert(keyof(r2, idx, a) == keyof(rows, idx, a0)); assert(keyof(r2, idx, b) == keyof(rows, idx, b0));
+    }
+}
+/// TAKING A ROW OUT keeps the table duplicate-free; the empty table is duplicate-free
+proof fn lemma_all_remove_dupfree(s: &TableSchema, rows: Seq<Row>, p: int)
+    requires 0 <= p < rows.len(), IndexManager::all_dupfree(s, rows),
+    ensures IndexManager::all_dupfree(s, rows.remove(p)),
+{
+    if s.pk() is Some { lemma_remove_dupfree(rows, s.pk().unwrap(), false, p); }
+    assert forall|c: int| 0 <= c < s.uniques().len() implies dupfree(rows.remove(p), #[trigger] s.uniques()[c], true) by { lemma_remove_dupfree(rows, s.uniques()[c], true, p); }
+}
+proof fn lemma_all_empty_dupfree(s: &TableSchema)
+    ensures IndexManager::all_dupfree(s, Seq::<Row>::empty()),
+{}
+/// what one more entry does to "the list names ..."
+proof fn lemma_push_lists(aff: Seq<IndexType>, t: IndexType)
+    ensures
+        lists_pk(aff.push(t), aff.len() as int + 1) == (lists_pk(aff, aff.len() as int) || t is PrimaryKey),
+        forall|c: int| #![trigger lists_uq(aff.push(t), c, aff.len() as int + 1)] lists_uq(aff.push(t), c, aff.len() as int + 1) == (lists_uq(aff, c, aff.len() as int) || t == IndexType::UniqueConstraint(c as usize)),
+{
+    let a2 = aff.push(t); let n = aff.len() as int;
+    if lists_pk(aff, n) { let j = choose|j: int| 0 <= j < n && (#[trigger] aff[j]) is PrimaryKey; assert(a2[j] is PrimaryKey); }
+    if t is PrimaryKey { assert(a2[n] is PrimaryKey); }
+    if lists_pk(a2, n + 1) { let j = choose|j: int| 0 <= j < n + 1 && (#[trigger] a2[j]) is PrimaryKey; if j < n { assert(aff[j] is PrimaryKey); } }
+    assert forall|c: int| lists_uq(a2, c, n + 1) == (lists_uq(aff, c, n) || t == IndexType::UniqueConstraint(c as usize)) by {
+        let u = IndexType::UniqueConstraint(c as usize);
+        if lists_uq(aff, c, n) { let j = choose|j: int| 0 <= j < n && (#[trigger] aff[j]) == u; assert(a2[j] == u); }
+        if t == u { assert(a2[n] == u); }
+        if lists_uq(a2, c, n + 1) { let j = choose|j: int| 0 <= j < n + 1 && (#[trigger] a2[j]) == u; if j < n { assert(aff[j] == u); } }
+    }
+}
+/// values that differ only in the columns of `ch` have the same key under every column list that avoids `ch`
+proof fn lemma_untouched_same_key(idx: Seq<usize>, ch: Set<usize>, ov: Seq<SqlValue>, nv: Seq<SqlValue>)
+    requires !touches(idx, ch), ov.len() == nv.len(), forall|j: int| 0 <= j < idx.len() ==> (#[trigger] idx[j]) < ov.len(),
+             forall|x: int| 0 <= x < ov.len() && !ch.contains(x as usize) ==> ov[x] == nv[x],
+    ensures proj(ov, idx) == proj(nv, idx),
+{
+    assert forall|j: int| 0 <= j < idx.len() implies proj(ov, idx)[j] == proj(nv, idx)[j] by { assert(!ch.contains(idx[j])); }
+    assert(proj(ov, idx) =~= proj(nv, idx));
+}
+/// get_affected_indexes + "changed_columns holds every column that differs" => update_selective skips only indexes whose key is unchanged
+proof fn lemma_covers_unlisted_same(s: &TableSchema, ch: Set<usize>, aff: Seq<IndexType>, ov: Seq<SqlValue>, nv: Seq<SqlValue>)
+    requires s.wf(), IndexManager::covers(s, ch, aff), ov.len() == s.ncols(), nv.len() == s.ncols(),
+             forall|x: int| 0 <= x < ov.len() && !ch.contains(x as usize) ==> ov[x] == nv[x],
+    ensures IndexManager::unlisted_same(s, aff, ov, nv),
+{
+    if s.pk() is Some && !lists_pk(aff, aff.len() as int) { lemma_untouched_same_key(s.pk().unwrap(), ch, ov, nv); }
+    assert forall|c: int| 0 <= c < s.uniques().len() implies lists_uq(aff, c, aff.len() as int) || proj(ov, #[trigger] s.uniques()[c]) == proj(nv, s.uniques()[c]) by {
+        if !lists_uq(aff, c, aff.len() as int) { lemma_untouched_same_key(s.uniques()[c], ch, ov, nv); }
+    }
+}
+proof fn lemma_last_pos(rows: Seq<Row>, idx: Seq<usize>, skip_null: bool, k: Key, n: int)
+    requires 0 <= n <= rows.len() <= usize::MAX,
+    ensures
+        match last_pos(rows, idx, skip_null, k, n) {
+            Some(p) => 0 <= p < n && keyof(rows, idx, p as int) == k && counted(k, skip_null) && forall|j: int| p < j < n ==> keyof(rows, idx, j) != k,
+            None => forall|j: int| 0 <= j < n ==> !(keyof(rows, idx, j) == k && counted(k, skip_null)),
+        },
+    decreases n,
+{
+    if n > 0 { lemma_last_pos(rows, idx, skip_null, k, n - 1); }
+}
+/// the converse: a position p holding k with no later holder IS last_pos
+proof fn lemma_last_pos_is(rows: Seq<Row>, idx: Seq<usize>, skip_null: bool, k: Key, n: int, p: int)
+    requires 0 <= p < n <= rows.len() <= usize::MAX, keyof(rows, idx, p) == k, counted(k, skip_null), forall|j: int| p < j < n ==> keyof(rows, idx, j) != k,
+    ensures last_pos(rows, idx, skip_null, k, n) == Some(p as usize),
+    decreases n,
+{
+    if n - 1 > p { assert(keyof(rows, idx, n - 1) != k); lemma_last_pos_is(rows, idx, skip_null, k, n - 1, p); }
+}
+proof fn lemma_last_pos_none(rows: Seq<Row>, idx: Seq<usize>, skip_null: bool, k: Key, n: int)
+    requires 0 <= n <= rows.len() <= usize::MAX, forall|j: int| 0 <= j < n ==> !(keyof(rows, idx, j) == k && counted(k, skip_null)),
+    ensures last_pos(rows, idx, skip_null, k, n) is None,
+    decreases n,
+{
+    if n > 0 { assert(!(keyof(rows, idx, n - 1) == k && counted(k, skip_null))); lemma_last_pos_none(rows, idx, skip_null, k, n - 1); }
+}
+
+
+proof fn lemma_last_pos_agree(rows: Seq<Row>, rows2: Seq<Row>, idx: Seq<usize>, skip_null: bool, k: Key, n: int)
+    requires 0 <= n <= rows.len(), n <= rows2.len(), forall|j: int| 0 <= j < n ==> keyof(rows, idx, j) == keyof(rows2, idx, j),
+    ensures last_pos(rows, idx, skip_null, k, n) == last_pos(rows2, idx, skip_null, k, n),
+    decreases n,
+{
+    if n > 0 { assert(keyof(rows, idx, n - 1) == keyof(rows2, idx, n - 1)); lemma_last_pos_agree(rows, rows2, idx, skip_null, k, n - 1); }
+}
+/// INSERT KEEPS THE MIRROR: appending a row and binding its key to the position it receives
+proof fn lemma_insert_keeps_mirror(m: Map<Key, usize>, rows: Seq<Row>, idx: Seq<usize>, skip_null: bool, r: Row)
+    requires rows.len() < usize::MAX, mirrors(m, rows, idx, skip_null, rows.len() as int),
+    ensures
+        ({ let k = proj(r.values@, idx);
+           mirrors(if skip_null && key_has_null(k) { m } else { m.insert(k, rows.len() as usize) }, rows.push(r), idx, skip_null, rows.len() as int + 1) }),
+{
+    let rows2 = rows.push(r); let n = rows.len() as int;
+    assert forall|k: Key| #![trigger m.dom().contains(k)] #![trigger last_pos(rows2, idx, skip_null, k, n)]
+        (m.dom().contains(k) == (last_pos(rows2, idx, skip_null, k, n) is Some)) && (m.dom().contains(k) ==> m[k] == last_pos(rows2, idx, skip_null, k, n).unwrap()) by {
+        lemma_last_pos_agree(rows, rows2, idx, skip_null, k, n);
+        assert(m.dom().contains(k) == (last_pos(rows, idx, skip_null, k, n) is Some));
+    }
+    lemma_insert_step(m, rows2, idx, skip_null, n);
+}
+proof fn lemma_push_dupfree(rows: Seq<Row>, idx: Seq<usize>, skip_null: bool, r: Row)
+    requires dupfree(rows, idx, skip_null), fresh(rows, idx, skip_null, rows.len() as int, proj(r.values@, idx)),
+    ensures dupfree(rows.push(r), idx, skip_null),
+{
+    let rows2 = rows.push(r);
+    assert forall|a: int, b: int| 0 <= a < b < rows2.len() && counted(keyof(rows2, idx, a), skip_null) implies keyof(rows2, idx, a) != keyof(rows2, idx, b) by {
+        assert(keyof(rows2, idx, a) == keyof(rows, idx, a));
+        if b < rows.len() { assert(keyof(rows2, idx, b) == keyof(rows, idx, b)); }
+    }
+}
+/// A WRITE THAT LEAVES THE KEY AS IT WAS keeps the mirror (an index update_selective does not touch)
+proof fn lemma_same_key_keeps_mirror(m: Map<Key, usize>, rows: Seq<Row>, idx: Seq<usize>, skip_null: bool, i: int, nr: Row)
+    requires 0 <= i < rows.len(), mirrors(m, rows, idx, skip_null, rows.len() as int), keyof(rows, idx, i) == proj(nr.values@, idx),
+    ensures mirrors(m, rows.update(i, nr), idx, skip_null, rows.len() as int), dupfree(rows, idx, skip_null) ==> dupfree(rows.update(i, nr), idx, skip_null),
+{
+    let rows2 = rows.update(i, nr); let n = rows.len() as int;
+    assert forall|j: int| 0 <= j < n implies keyof(rows, idx, j) == keyof(rows2, idx, j) by {}
+    assert forall|k: Key| #![trigger m.dom().contains(k)] #![trigger last_pos(rows2, idx, skip_null, k, n)]
+        (m.dom().contains(k) == (last_pos(rows2, idx, skip_null, k, n) is Some)) && (m.dom().contains(k) ==> m[k] == last_pos(rows2, idx, skip_null, k, n).unwrap()) by {
+        lemma_last_pos_agree(rows, rows2, idx, skip_null, k, n);
+        assert(m.dom().contains(k) == (last_pos(rows, idx, skip_null, k, n) is Some));
+    }
+    if dupfree(rows, idx, skip_null) {
+        assert forall|a: int, b: int| 0 <= a < b < rows2.len() && counted(keyof(rows2, idx, a), skip_null) implies keyof(rows2, idx, a) != keyof(rows2, idx, b) by {
+            assert(keyof(rows2, idx, a) == keyof(rows, idx, a)); assert(keyof(rows2, idx, b) == keyof(rows, idx, b));
+        }
+    }
+}
+
+/// UPDATE KEEPS THE MIRROR: on a duplicate-free table whose map mirrors the rows, writing `nr` at position i (its key fresh) and giving the map
+/// the update_for_update effect leaves the map mirroring the new rows, which are duplicate-free again
+proof fn lemma_update_keeps_mirror(m: Map<Key, usize>, rows: Seq<Row>, idx: Seq<usize>, skip_null: bool, i: int, nr: Row)
+    requires
+        0 <= i < rows.len(), rows.len() <= usize::MAX,
+        mirrors(m, rows, idx, skip_null, rows.len() as int), dupfree(rows, idx, skip_null),
+        fresh(rows, idx, skip_null, i, proj(nr.values@, idx)),
+    ensures
+        ({ let ko = keyof(rows, idx, i); let kn = proj(nr.values@, idx);
+           let m2 = if skip_null { uq_upd(m, ko, kn, i as usize) } else { pk_upd(m, ko, kn, i as usize) };
+           mirrors(m2, rows.update(i, nr), idx, skip_null, rows.len() as int) }),
+{
+    let ko = keyof(rows, idx, i); let kn = proj(nr.values@, idx);
+    let n = rows.len() as int;
+    let rows2 = rows.update(i, nr);
+    let m2 = if skip_null { uq_upd(m, ko, kn, i as usize) } else { pk_upd(m, ko, kn, i as usize) };
+    assert forall|j: int| 0 <= j < n implies keyof(rows2, idx, j) == (if j == i { kn } else { keyof(rows, idx, j) }) by {}
+    assert forall|k: Key| #![trigger m2.dom().contains(k)] #![trigger last_pos(rows2, idx, skip_null, k, n)] (m2.dom().contains(k) == (last_pos(rows2, idx, skip_null, k, n) is Some))
+        && (m2.dom().contains(k) ==> m2[k] == last_pos(rows2, idx, skip_null, k, n).unwrap()) by {
+        lemma_last_pos(rows, idx, skip_null, k, n);
+        assert(m.dom().contains(k) == (last_pos(rows, idx, skip_null, k, n) is Some));
+        if k == kn && counted(kn, skip_null) {
+            lemma_last_pos_is(rows2, idx, skip_null, k, n, i);
+        } else if k == ko && ko != kn {
+            // ko is held by no row of rows2: position i now holds kn, and no other row held ko (duplicate-free)
+            lemma_last_pos_none(rows2, idx, skip_null, k, n);
+        } else {
+            match last_pos(rows, idx, skip_null, k, n) {
+                Some(p) => { lemma_last_pos_is(rows2, idx, skip_null, k, n, p as int); }
+                None => { lemma_last_pos_none(rows2, idx, skip_null, k, n); }
+            }
+        }
+    }
+    assert(mirrors(m2, rows2, idx, skip_null, n));
+}
+/// ... and the rows stay duplicate-free
+proof fn lemma_update_dupfree(rows: Seq<Row>, idx: Seq<usize>, skip_null: bool, i: int, nr: Row)
+    requires 0 <= i < rows.len(), dupfree(rows, idx, skip_null), fresh(rows, idx, skip_null, i, proj(nr.values@, idx)),
+    ensures dupfree(rows.update(i, nr), idx, skip_null),
+{
+    let rows2 = rows.update(i, nr); let kn = proj(nr.values@, idx);
+    assert forall|a: int, b: int| 0 <= a < b < rows2.len() && counted(keyof(rows2, idx, a), skip_null) implies keyof(rows2, idx, a) != keyof(rows2, idx, b) by {
+        assert(keyof(rows2, idx, a) == (if a == i { kn } else { keyof(rows, idx, a) }));
+        assert(keyof(rows2, idx, b) == (if b == i { kn } else { keyof(rows, idx, b) }));
+    }
+}
+impl IndexManager {
+
+//@@ new
 
 //@@ update_for_insert
 
 //@@ update_for_update
 
 //@@ update_for_delete
+
+//@@ get_affected_indexes
 
 //@@ update_selective
 
@@ -134,6 +409,21 @@ fn canary_rebuild(im: &mut IndexManager, s: &TableSchema, rows: &[Row])
     requires s.wf(), old(im).shaped(s), IndexManager::rows_ok(s, rows@)
 {
     im.rebuild(s, rows);
+    assert(false); // CANARY
+}
+fn canary_mirror(im: &mut IndexManager, s: &TableSchema, o: &Row, n: &Row, i: usize, Ghost(rows): Ghost<Seq<Row>>)
+    requires s.wf(), o.values@.len() == s.ncols(), n.values@.len() == s.ncols(), old(im).shaped(s),
+             old(im).synced_n(s, rows, rows.len() as int), rows.len() <= usize::MAX, (i as int) < rows.len(), rows[i as int].values@ == o.values@,
+             IndexManager::all_dupfree(s, rows), IndexManager::all_fresh(s, rows, i as int, n.values@)
+{
+    im.update_for_update(s, o, n, i);
+    assert(im.synced_n(s, rows.update(i as int, *n), rows.len() as int));
+    assert(false); // CANARY
+}
+fn canary_affected(im: &IndexManager, s: &TableSchema, ch: &ColSet)
+    requires s.wf()
+{
+    let a = im.get_affected_indexes(s, ch);
     assert(false); // CANARY
 }
 fn canary_selective(im: &mut IndexManager, s: &TableSchema, o: &Row, n: &Row, i: usize, a: &[IndexType])
@@ -169,12 +459,126 @@ _SNAP = ('let unique_constraint_indices = schema.get_unique_constraint_indices()
 import os
 _P = json.load(open(os.path.join(os.path.dirname(os.path.abspath(__file__)), '_k_index_parts.json')))
 
+_ANTE_UPD = ('old(self).synced_n(schema, rows, rows.len() as int) && rows.len() <= usize::MAX && (row_index as int) < rows.len() && rows[row_index as int].values@ == old_row.values@ '
+             '&& IndexManager::all_dupfree(schema, rows) && IndexManager::all_fresh(schema, rows, row_index as int, new_row.values@)')
+_CONS_UPD = ('final(self).synced_n(schema, rows.update(row_index as int, *new_row), rows.len() as int) && IndexManager::all_dupfree(schema, rows.update(row_index as int, *new_row))')
+# C15: the maintenance calls KEEP the mirror (these are the contracts unit K-table assumes of IndexManager)
+_C_INS = _P['C']['update_for_insert'] + """
+            // APPEND KEEPS THE MIRROR (C15): the maps mirror `rows`, the row goes to position rows.len()
+            forall|rows: Seq<Row>| #![trigger old(self).synced_n(schema, rows, rows.len() as int)]
+                old(self).synced_n(schema, rows, rows.len() as int) && rows.len() < usize::MAX && row_index == rows.len()
+                ==> final(self).synced_n(schema, rows.push(*row), rows.len() as int + 1)
+                    && (IndexManager::all_dupfree(schema, rows) && IndexManager::all_fresh(schema, rows, rows.len() as int, row.values@) ==> IndexManager::all_dupfree(schema, rows.push(*row))),
+"""
+_C_UPD = _P['C']['update_for_update'] + """
+            // WRITE-IN-PLACE KEEPS THE MIRROR (C15): maps mirror the duplicate-free `rows`, old_row is the row at row_index, the new row's keys are held by no other row
+            forall|rows: Seq<Row>| #![trigger old(self).synced_n(schema, rows, rows.len() as int)]
+                %s
+                ==> %s,
+""" % (_ANTE_UPD, _CONS_UPD)
+_C_SEL = _P['C']['update_selective'] + """
+            // ... and so does the selective update, provided every index it is NOT told to update has an unchanged key
+            forall|rows: Seq<Row>| #![trigger old(self).synced_n(schema, rows, rows.len() as int)]
+                %s && IndexManager::unlisted_same(schema, affected_indexes@, old_row.values@, new_row.values@)
+                ==> %s,
+""" % (_ANTE_UPD, _CONS_UPD)
+_PF_INS = """
+proof {
+    assert forall|rows: Seq<Row>| #![trigger old(self).synced_n(schema, rows, rows.len() as int)]
+        old(self).synced_n(schema, rows, rows.len() as int) && rows.len() < usize::MAX && row_index == rows.len()
+        implies self.synced_n(schema, rows.push(*row), rows.len() as int + 1)
+            && (IndexManager::all_dupfree(schema, rows) && IndexManager::all_fresh(schema, rows, rows.len() as int, row.values@) ==> IndexManager::all_dupfree(schema, rows.push(*row))) by {
+        let rows2 = rows.push(*row);
+        if old(self).primary_key_index is Some { lemma_insert_keeps_mirror(old(self).primary_key_index.unwrap().view(), rows, schema.pk().unwrap(), false, *row); }
+        assert forall|c: int| 0 <= c < self.unique_indexes@.len() && c < schema.uniques().len() implies mirrors((#[trigger] self.unique_indexes@[c]).view(), rows2, schema.uniques()[c], true, rows.len() as int + 1) by {
+            lemma_insert_keeps_mirror(old(self).unique_indexes@[c].view(), rows, schema.uniques()[c], true, *row);
+        }
+        if IndexManager::all_dupfree(schema, rows) && IndexManager::all_fresh(schema, rows, rows.len() as int, row.values@) {
+            if schema.pk() is Some { lemma_push_dupfree(rows, schema.pk().unwrap(), false, *row); }
+            assert forall|c: int| 0 <= c < schema.uniques().len() implies dupfree(rows2, #[trigger] schema.uniques()[c], true) by { lemma_push_dupfree(rows, schema.uniques()[c], true, *row); }
+        }
+    }
+}
+"""
+_PF_UPD = """
+proof {
+    assert forall|rows: Seq<Row>| #![trigger old(self).synced_n(schema, rows, rows.len() as int)]
+        %s
+        implies %s by {
+        let i = row_index as int; let rows2 = rows.update(i, *new_row);
+        if old(self).primary_key_index is Some { lemma_update_keeps_mirror(old(self).primary_key_index.unwrap().view(), rows, schema.pk().unwrap(), false, i, *new_row); }
+        assert forall|c: int| 0 <= c < self.unique_indexes@.len() && c < schema.uniques().len() implies mirrors((#[trigger] self.unique_indexes@[c]).view(), rows2, schema.uniques()[c], true, rows.len() as int) by {
+            lemma_update_keeps_mirror(old(self).unique_indexes@[c].view(), rows, schema.uniques()[c], true, i, *new_row);
+        }
+        if schema.pk() is Some { lemma_update_dupfree(rows, schema.pk().unwrap(), false, i, *new_row); }
+        assert forall|c: int| 0 <= c < schema.uniques().len() implies dupfree(rows2, #[trigger] schema.uniques()[c], true) by { lemma_update_dupfree(rows, schema.uniques()[c], true, i, *new_row); }
+    }
+}
+""" % (_ANTE_UPD.replace('old(self).synced_n', 'old(self).synced_n'), _CONS_UPD.replace('final(self)', 'self'))
+_PF_SEL = """
+proof {
+    assert forall|rows: Seq<Row>| #![trigger old(self).synced_n(schema, rows, rows.len() as int)]
+        %s && IndexManager::unlisted_same(schema, affected_indexes@, old_row.values@, new_row.values@)
+        implies %s by {
+        let i = row_index as int; let rows2 = rows.update(i, *new_row); let aff = affected_indexes@; let na = aff.len() as int;
+        if old(self).primary_key_index is Some {
+            let p = schema.pk().unwrap(); let m = old(self).primary_key_index.unwrap().view();
+            lemma_sel_pk(m, aff, na, proj(old_row.values@, p), proj(new_row.values@, p), row_index);
+            if lists_pk(aff, na) { lemma_update_keeps_mirror(m, rows, p, false, i, *new_row); } else { lemma_same_key_keeps_mirror(m, rows, p, false, i, *new_row); }
+        }
+        assert forall|c: int| 0 <= c < self.unique_indexes@.len() && c < schema.uniques().len() implies mirrors((#[trigger] self.unique_indexes@[c]).view(), rows2, schema.uniques()[c], true, rows.len() as int) by {
+            let p = schema.uniques()[c]; let m = old(self).unique_indexes@[c].view();
+            lemma_sel_uq(m, c, aff, na, proj(old_row.values@, p), proj(new_row.values@, p), row_index);
+            if lists_uq(aff, c, na) { lemma_update_keeps_mirror(m, rows, p, true, i, *new_row); } else { lemma_same_key_keeps_mirror(m, rows, p, true, i, *new_row); }
+        }
+        if schema.pk() is Some { lemma_update_dupfree(rows, schema.pk().unwrap(), false, i, *new_row); }
+        assert forall|c: int| 0 <= c < schema.uniques().len() implies dupfree(rows2, #[trigger] schema.uniques()[c], true) by { lemma_update_dupfree(rows, schema.uniques()[c], true, i, *new_row); }
+    }
+}
+""" % (_ANTE_UPD, _CONS_UPD.replace('final(self)', 'self'))
+
 ITEMS = {
     'IndexType': dict(file=_F, path='enum IndexType'),
-    'update_for_insert': dict(file=_F, path='impl IndexManager::fn update_for_insert', rewrites=_RW, loops={0: _P['L']['update_for_insert']}, proofs=[_SNAP], contract=_P['C']['update_for_insert']),
-    'update_for_update': dict(file=_F, path='impl IndexManager::fn update_for_update', rewrites=_RW, loops={0: _P['L']['update_for_update']}, proofs=[_SNAP], contract=_P['C']['update_for_update']),
+    'new': dict(file=_F, path='impl IndexManager::fn new', ret='res', rewrites=_RW + [
+            ('re', r'schema\.primary_key\.is_some\(\)', 'schema.has_primary_key()', 1),
+            ('re', r'\(0\.\.schema\.unique_constraints\.len\(\)\)\.map\(\|_\| HashMap::new\(\)\)\.collect\(\)', 'empty_maps(schema.unique_constraint_count())', 1),
+            ('re', r'Some\(HashMap::new\(\)\)', 'Some(KeyPosMap::new())', 1)],
+        proofs=[('@tail', 'proof { assert forall|c: int| 0 <= c < unique_indexes@.len() implies mirrors((#[trigger] unique_indexes@[c]).view(), Seq::<Row>::empty(), schema.uniques()[c], true, 0) by { lemma_empty_mirrors(Seq::<Row>::empty(), schema.uniques()[c], true); } if schema.pk() is Some { lemma_empty_mirrors(Seq::<Row>::empty(), schema.pk().unwrap(), false); } }')],
+        contract='''
+        ensures res.complete(schema), res.shaped(schema), res.synced_n(schema, Seq::<Row>::empty(), 0),    // one EMPTY map per constraint
+'''),
+    'update_for_insert': dict(file=_F, path='impl IndexManager::fn update_for_insert', rewrites=_RW, loops={0: _P['L']['update_for_insert']}, proofs=[_SNAP, ('@afterloop0', _PF_INS)], contract=_C_INS),
+    'update_for_update': dict(file=_F, path='impl IndexManager::fn update_for_update', rewrites=_RW, loops={0: _P['L']['update_for_update']}, proofs=[_SNAP, ('@afterloop0', _PF_UPD)], contract=_C_UPD),
     'update_for_delete': dict(file=_F, path='impl IndexManager::fn update_for_delete', rewrites=_RW, loops={0: _P['L']['update_for_delete']}, proofs=[_SNAP], contract=_P['C']['update_for_delete']),
-    'update_selective': dict(file=_F, path='impl IndexManager::fn update_selective', rewrites=_RW, loops={0: _P['L']['update_selective']}, contract=_P['C']['update_selective']),
+    'get_affected_indexes': dict(file=_F, path='impl IndexManager::fn get_affected_indexes', ret='res', rewrites=_RW + [
+            ('re', r'&HashSet<usize>', '&ColSet', 1),
+            ('re', r'(\w+)\.iter\(\)\.any\(\|(\w+)\| changed_columns\.contains\(\2\)\)', r'any_in(\1.as_slice(), changed_columns)', 2),
+            ('re', r'let mut affected = Vec::new\(\);', 'let mut affected: Vec<IndexType> = Vec::new();', 1)],
+        loops={0: """
+            invariant
+                ci__ <= unique_constraint_indices@.len(), unique_constraint_indices@.len() == schema.uniques().len(),
+                forall|c: int| 0 <= c < unique_constraint_indices@.len() ==> (#[trigger] unique_constraint_indices@[c])@ == schema.uniques()[c],
+                schema.pk() matches Some(p) ==> (lists_pk(affected@, affected@.len() as int) <==> touches(p, changed_columns.view())),
+                schema.pk() is None ==> !lists_pk(affected@, affected@.len() as int),
+                forall|c: int| #![trigger schema.uniques()[c]] #![trigger lists_uq(affected@, c, affected@.len() as int)] 0 <= c < schema.uniques().len() ==> (lists_uq(affected@, c, affected@.len() as int) <==> (c < ci__ && touches(schema.uniques()[c], changed_columns.view()))),
+            decreases unique_constraint_indices@.len() - ci__,
+"""},
+        proofs=[('affected.push(IndexType::PrimaryKey);', 'proof { lemma_push_lists(affected@, IndexType::PrimaryKey); }'),
+                ('@loop0', 'let ghost aff0 = affected@;'),
+                ('after:affected.push(IndexType::UniqueConstraint(constraint_idx));', '''proof {
+                    lemma_push_lists(aff0, IndexType::UniqueConstraint(constraint_idx));
+                    assert(affected@ == aff0.push(IndexType::UniqueConstraint(constraint_idx)));
+                    assert forall|c: int| #![trigger schema.uniques()[c]] #![trigger lists_uq(affected@, c, affected@.len() as int)] 0 <= c < schema.uniques().len()
+                        implies (lists_uq(affected@, c, affected@.len() as int) <==> (c < ci__ && touches(schema.uniques()[c], changed_columns.view()))) by {
+                        let uc = schema.uniques()[c];
+                        assert(lists_uq(aff0.push(IndexType::UniqueConstraint(constraint_idx)), c, aff0.len() as int + 1) == (lists_uq(aff0, c, aff0.len() as int) || IndexType::UniqueConstraint(constraint_idx) == IndexType::UniqueConstraint(c as usize)));
+                    }
+                }''')],
+        contract="""
+        requires schema.wf()
+        ensures IndexManager::covers(schema, changed_columns.view(), res@),   // the list names EXACTLY the constraint indexes with a changed column
+"""),
+    'update_selective': dict(file=_F, path='impl IndexManager::fn update_selective', rewrites=_RW, loops={0: _P['L']['update_selective']}, proofs=[('@afterloop0', _PF_SEL)], contract=_C_SEL),
     'rebuild': dict(file=_F, path='impl IndexManager::fn rebuild', rewrites=_RW, loops={0: _P['L']['rebuild']},
                     proofs=[('after:self.clear();', _P['p1']), ('@loop0', 'let ghost before = *self;'), ('after:self.update_for_insert(schema, row, row_index);', _P['p2'])],
                     contract=_P['C']['rebuild']),
@@ -182,20 +586,35 @@ ITEMS = {
 }
 
 OBLIGATIONS = {
-    'update_for_insert': ['post:key_bound_to_the_row_position_in_every_map__null_unique_keys_not_stored', 'safety:index_in_bounds', 'proof:loop_invariant'],
-    'update_for_update': ['post:old_key_unbound_if_changed__new_key_bound__null_unique_keys_not_stored', 'proof:loop_invariant'],
+    'update_for_insert': ['post:key_bound_to_the_row_position_in_every_map__null_unique_keys_not_stored__append_keeps_the_mirror', 'safety:index_in_bounds', 'proof:loop_invariant'],
+    'update_for_update': ['post:old_key_unbound_if_changed__new_key_bound__null_unique_keys_not_stored__write_in_place_keeps_the_mirror', 'proof:loop_invariant'],
     'update_for_delete': ['post:key_unbound_in_every_map', 'proof:loop_invariant'],
-    'update_selective': ['post:exactly_the_listed_indexes_get_the_update_effect', 'proof:loop_invariant'],
+    'update_selective': ['post:exactly_the_listed_indexes_get_the_update_effect__mirror_kept_when_unlisted_keys_are_unchanged', 'proof:loop_invariant'],
     'rebuild': ['post:every_map_is_key_to_position_of_the_last_row_with_that_key', 'proof:loop_invariant'],
     'clear': ['post:every_map_empty', 'proof:loop_invariant'],
+    'new': ['post:one_empty_map_per_constraint'],
+    'get_affected_indexes': ['post:the_list_names_exactly_the_constraint_indexes_with_a_changed_column', 'proof:loop_invariant'],
     'lemma_insert_step': ['post:mirror_extends_by_one_row'], 'lemma_empty_mirrors': ['post:empty_map_mirrors_no_rows'],
+    'lemma_last_pos': ['post:last_pos_characterised'], 'lemma_last_pos_is': ['post:a_last_holder_is_last_pos'], 'lemma_last_pos_none': ['post:no_holder_no_last_pos'],
+    'lemma_last_pos_agree': ['post:last_pos_depends_on_the_keys_only'],
+    'lemma_insert_keeps_mirror': ['post:append_keeps_the_mirror'], 'lemma_push_dupfree': ['post:append_of_a_fresh_key_keeps_duplicate_freedom'],
+    'lemma_same_key_keeps_mirror': ['post:a_write_that_leaves_the_key_keeps_the_mirror'],
+    'lemma_update_keeps_mirror': ['post:update_effect_on_a_duplicate_free_mirrored_table_with_a_fresh_new_key_keeps_the_mirror'],
+    'lemma_update_dupfree': ['post:write_of_a_fresh_key_keeps_duplicate_freedom'],
+    'lemma_remove_dupfree': ['post:removal_keeps_duplicate_freedom'], 'lemma_all_remove_dupfree': ['post:removal_keeps_duplicate_freedom_for_every_constraint'],
+    'lemma_all_empty_dupfree': ['post:empty_table_is_duplicate_free'],
+    'lemma_sel_pk': ['post:listed_index_gets_the_effect_once_however_often_listed'], 'lemma_sel_uq': ['post:listed_index_gets_the_effect_once_however_often_listed'],
+    'lemma_push_lists': ['post:one_more_entry'], 'lemma_untouched_same_key': ['post:untouched_columns_same_key'],
+    'lemma_covers_unlisted_same': ['post:unlisted_indexes_have_unchanged_keys_when_changed_columns_is_complete'],
 }
-CANARIES = ['canary_rebuild', 'canary_selective']
+CANARIES = ['canary_rebuild', 'canary_selective', 'canary_mirror', 'canary_affected']
 TRUSTED = [
     'external_body Val opaque; SqlValue collapsed to Null | V(payload); Row reduced to its values',
     'external_body project / has_null / key_ne / key_eq: the key projection iterator chain `ix.iter().map(|&i| row.values[i].clone()).collect()`, `k.contains(&SqlValue::Null)`, `a != b` on key vectors (structural equality: Eq of SqlValue, unit T-laws)',
     'external_body KeyPosMap (insert, remove, clear): std HashMap<Vec<SqlValue>, usize> as an abstract finite map; TableSchema::get_primary_key_indices / get_unique_constraint_indices return the uninterpreted position lists pk / uniques',
-    'preconditions: the constraint positions exist in the rows (schema.wf, row width = column count) and shaped: a primary-key map exists only if the schema has a primary key (IndexManager::new, not under contract: closure / range iterator)',
-    'get_affected_indexes (iterator any / HashSet::contains) is not under contract: that the list passed to update_selective names every index whose columns changed is NOT proved',
-    'the mirror is stated for rebuild (and clear); that update_for_update on a SYNCED, DUPLICATE-FREE table keeps the mirror follows from its exact effect but is not machine-checked here',
+    'preconditions: the constraint positions exist in the rows (schema.wf, row width = column count) and shaped: a primary-key map exists only if the schema has a primary key (established by IndexManager::new, kept by every operation)',
+    'C15: mirror preservation is conditional on (a) all_dupfree: no two rows share a stored PRIMARY KEY / UNIQUE key, and (b) all_fresh: the keys about to be written are held by no other row - both are what PRIMARY KEY / UNIQUE enforcement in the executors establishes (C10 units K-pk, K-rowval, N-track), NOT proved here; lemma_update_keeps_mirror fails without either (checked when the unit was built)',
+    'update_selective keeps the mirror only if `changed_columns` holds every column in which the new row differs from the old one (lemma_covers_unlisted_same): that the UPDATE executor computes such a set is NOT under contract',
+    'external_body ColSet (HashSet<usize> as an abstract set), any_in (`cols.iter().any(|i| changed_columns.contains(i))`), empty_maps (`(0..n).map(|_| HashMap::new()).collect()`), KeyPosMap::new, TableSchema::has_primary_key / unique_constraint_count (`schema.primary_key.is_some()`, `schema.unique_constraints.len()`; assumed consistent with get_primary_key_indices / get_unique_constraint_indices, which map those two fields one to one)',
+    'machine arithmetic: row vectors of at most usize::MAX rows (rows.len() <= usize::MAX, < usize::MAX before an append)',
 ]
